@@ -850,6 +850,11 @@ func (x *exec) doUpdate(n *simNode, op *Op, relaxedFork bool) {
 	if gp := fc.Pin(); (gp == nil) != (m.pin == nil) {
 		x.viol("C10", "C10/pin-state", fmt.Sprintf("pin after update: got %v, model %v", gp, m.pin))
 	}
+	// "the head stays inside the finalized subtree": right after an accepted update the head is the
+	// one the new checkpoints define (no vote or block needs to arrive first)
+	if !x.own {
+		x.checkHeadP("C10", n, "Head-after-update", m.HeadStart(), func() (common.NodeRef, error) { return fc.Head() })
+	}
 }
 
 // Execute runs a script on fresh node(s), checking every call against the model.
